@@ -22,6 +22,8 @@ Deepening round D: `likwin` (likelihood where exp(-t_min/tau) underflows: the fa
 (_exponential_mle_optimize behind a stand-in optimiser: fixed-parameter masks, default guess, selected bounds / gradient,
 reported vector and likelihood; `_exponential_mle_optimize` unreachable -> "?") and `fbt` (fit_binding_times with options
 given or left out; public API only) cases, and deterministic small-scope fits.
+Strengthening round H: `extract` cases with "groups" hand the anchored extraction function explicit groups (empty ones,
+several per kymograph, several kymographs in one) instead of the per-kymograph split of one group object.
 
 Private names (DESIGN.md C15, "Robustness against refactorings"): every private member of pylake is looked up at the point
 of use (`priv`, `takes`, getattr); when it is gone or takes other arguments the harness raises its own `Unreachable` and
@@ -73,6 +75,9 @@ THEOREMS = [
     "Verif.C15.extraction_spec_observed_minimum",
     "Verif.C15.observed_minimum_is_least",
     "Verif.C15.extraction_observed_minimum_never_refuses",
+    "Verif.C15.extraction_by_kymo_never_mixed",
+    "Verif.C15.extraction_groups_by_kymo",
+    "Verif.C15.extraction_refuses_mixed_group",
     "Verif.C15.fit_binding_defaults",
     "Verif.C15.fit_binding_rows_spec",
     "Verif.C15.fit_binding_rows_legacy",
@@ -126,7 +131,14 @@ RULE = (
     "small scope: every mask for n <= 2 x 3-4 amplitude vectors x continuous/discretised x tmax finite/inf; non-trivial "
     "when something is fixed or n >= 2), 'fbt' (fit_binding_times with n_components in 0..3 and observed_minimum / "
     "discrete_model given or left out, constructor arguments and warnings recorded; small scope: 4 groups x 4 x 2 x 3 x 3), "
-    "small-scope fits (1-2 components x continuous/discretised x scalar/two windows x tmax finite/inf on quantile data)."
+    "small-scope fits (1-2 components x continuous/discretised x scalar/two windows x tmax finite/inf on quantile data). "
+    "Strengthening round H: 'extract-groups' (_extract_dwelltime_data_from_groups handed explicit groups instead of the "
+    "per-kymograph split: that split reordered with empty groups in between, a kymograph's tracks spread over several "
+    "groups, two or all kymographs in one group -- refused, or answered with each track's own kymograph --, any partition; "
+    "small scope: every partition of four tracks over two kymographs x reversed with an empty group x all four flag "
+    "combinations; no public route: '?' when the function is out of reach); 'validate-edge' (a dwell time 0.5 / 0.9 / "
+    "1.1 / 2 / 10 relative tolerances (1e-6) outside the lower or the upper edge of windows from 2 ms to 10^4 s, scalar "
+    "and per-observation limits; small scope 4 windows x 2 edges x 5 distances x 2, and random windows)."
 )
 TRUSTED = [
     "RealLike formulas are executed at Float by the driver and compared with NumPy doubles within rel 1e-9 of a "
@@ -179,6 +191,13 @@ _LAST = {}  # canonical(case) -> impl answers (ops of 'fit' cases need the fitte
 
 def fl(xs):
     return enc_list(list(np.atleast_1d(np.asarray(xs, dtype=float))), enc_float)
+
+
+def enc_value(v):
+    """what a callback handed to SciPy returns: a scalar, or an array of one element (SciPy takes either); anything else
+    is shown as the list it is"""
+    a = np.asarray(v, dtype=float).ravel()
+    return enc_float(float(a[0])) if a.size == 1 else fl(a)
 
 
 def dec_fl(s):
@@ -737,6 +756,29 @@ def analyse_private(group, excl, obsmin):
     return show_rows([d, lo, hi, st], bool(removed))
 
 
+def analyse_groups(case, kymos):
+    """the anchored function handed the groups the case spells out (case['groups']: lists of indices into case['tracks'])
+    instead of the per-kymograph split: empty groups, several groups of one kymograph, groups in any order, groups over
+    more than one kymograph.  There is no public route to such a call: "?" when the function cannot be reached"""
+    _, KymoTrackGroup = track_classes()
+    extract = getattr(KymoTrackGroup, "_extract_dwelltime_data_from_groups", None)
+    excl, obsmin = case["excl"], case["obsmin"]
+    if not callable(extract) or not takes(extract, [], excl, observed_minimum=obsmin):
+        _note("KymoTrackGroup._extract_dwelltime_data_from_groups")
+        return "?"
+    try:
+        tracks = [make_track(kymos, tr) for tr in case["tracks"]]
+        groups = [KymoTrackGroup([tracks[i] for i in g]) for g in case["groups"]]
+        res = extract(groups, excl, observed_minimum=obsmin)
+    except Exception as e:
+        return errname(e)
+    if not (isinstance(res, tuple) and len(res) == 5):
+        _note("KymoTrackGroup._extract_dwelltime_data_from_groups")
+        return "?"
+    d, lo, hi, removed, st = res
+    return show_rows([d, lo, hi, st], bool(removed))
+
+
 def analyse_public(group, excl, obsmin, discrete, run_fit):
     """the same data through the public API: fit_binding_times, the arguments it hands to DwelltimeModel recorded under
     their public names, the removed-zeros flag read off the warning it issues"""
@@ -1039,7 +1081,7 @@ def impl_assemble(case):
     cons = seen.get("constraints")
     cval = "none"
     if isinstance(cons, dict):
-        cval = enc_float(cons["fun"](probe[: len(seen["x0"])], *cons["args"]))
+        cval = enc_value(cons["fun"](probe[: len(seen["x0"])], *cons["args"]))
     grad = "?" if seen["grad"] is None else fl(seen["grad"])
     return [f"? {fl(seen['x0'])} {fl(seen['lo'])} {fl(seen['hi'])} {fl(p)} {enc_float(float(ll))} {grad} {cval}"]
 
@@ -1170,7 +1212,7 @@ def _impl(case):
             nfree, val = 0, "none"
         else:
             nfree = int(cons["args"][0])
-            val = enc_float(cons["fun"](x, *cons["args"]))
+            val = enc_value(cons["fun"](x, *cons["args"]))
         return [f"{enc_list(list(fitted), enc_bool)} {nfree} {fl(newp)} {val}"]
     if k == "extract":
         case.pop("_public_route", None)
@@ -1178,6 +1220,8 @@ def _impl(case):
         try:
             if "steps" in case:
                 return impl_extract_seq(case)
+            if "groups" in case:
+                return [analyse_groups(case, build_kymos(case))]
             group = build_group(case)
         except Exception as e:
             return [errname(e)]
@@ -1376,14 +1420,21 @@ def fitted_of(case):
     return dec_fl(toks[1]), dec_fl(toks[2])
 
 
+def track_token(case, tr):
+    ky = kymo_facts(case)[tr["kymo"]]
+    mo = "N" if tr["minobs"] is None or tr["minobs"] == "?" else enc_rat(tr["minobs"])  # "?" only where it is not used
+    return f"{tr['kymo']}:{ky['n_lines']}:{enc_rat(ky['line_time'])}:{mo}:{enc_list(tr['idx'])}"
+
+
 def extract_op(case, tracks, excl, obsmin):
+    return " ".join(["c15.extract", enc_bool(excl), enc_bool(obsmin)] + [track_token(case, tr) for tr in tracks])
+
+
+def extract_groups_op(case):
     toks = []
-    facts = kymo_facts(case)
-    for tr in tracks:
-        ky = facts[tr["kymo"]]
-        mo = "N" if tr["minobs"] is None or tr["minobs"] == "?" else enc_rat(tr["minobs"])  # "?" only where it is not used
-        toks.append(f"{tr['kymo']}:{ky['n_lines']}:{enc_rat(ky['line_time'])}:{mo}:{enc_list(tr['idx'])}")
-    return " ".join(["c15.extract", enc_bool(excl), enc_bool(obsmin)] + toks)
+    for j, g in enumerate(case["groups"]):
+        toks += (["|"] if j else []) + [track_token(case, case["tracks"][i]) for i in g]
+    return " ".join(["c15.extractgroups", enc_bool(case["excl"]), enc_bool(case["obsmin"])] + toks)
 
 
 def ops(case):
@@ -1474,6 +1525,8 @@ def ops(case):
         mask = "N" if case["mask"] is None else enc_list(case["mask"], enc_bool)
         return [f"c15.constraint {case['n']} {enc_list(case['params'], enc_rat)} {mask} {enc_list(case['x'], enc_rat)}"]
     if k == "extract":
+        if "groups" in case:
+            return [extract_groups_op(case)]
         if "steps" not in case:
             return [extract_op(case, case["tracks"], case["excl"], case["obsmin"])]
         # the model is asked about the tracks that were in the group object at the time of each analysis
@@ -1707,6 +1760,8 @@ def agree(case, i, ia, ma):
                 return False
             return vi == "none" or close(dec_float(vi), float(dec_rat(vm)), 1e-9, 1e-12)
         if k == "extract":
+            if "groups" in case and ia == "?":
+                return True  # the anchored function could not be reached and there is no public route to such a call
             if "steps" not in case:
                 return agree_extract(case, ia, ma, ordered=True)
             # one analysis of a sequence on one group object: the rows as a multiset (the order in which the code
@@ -2090,9 +2145,69 @@ def expected_rows(case):
     return rows, removed, missing
 
 
+def mixed_groups(case):
+    """groups of the case that hold tracks of more than one kymograph"""
+    return [g for g in case.get("groups", []) if len({case["tracks"][i]["kymo"] for i in g}) > 1]
+
+
+def oracle_extract_groups(case, ia):
+    """the anchored function handed explicit groups.  From the property text: every row handed over is the duration of a
+    track, that track's minimum observable duration, the total duration of the kymograph THAT TRACK lies on (and its line
+    time).  Groups on one kymograph each, in any order, with empty groups in between: the rows of the groups one after the
+    other (legacy minimum: the shortest kept dwell of the group handed in).  A group over several kymographs has no single
+    'kymograph's total duration': refusing it (ValueError, as the function documents) is fine, and so would be rows that
+    are right track by track -- rows carrying another kymograph's duration are not"""
+    a = ia[0]
+    if a == "?":
+        return None
+    if mixed_groups(case) and a == "ValueError":
+        return None
+    rows, removed, missing, empty = [], False, False, False
+    for g in case["groups"]:
+        sub = dict(case, tracks=[case["tracks"][i] for i in g])
+        empty = empty or any(len(tr["idx"]) == 0 for tr in sub["tracks"])
+        by_kymo = []
+        for kid in sorted({tr["kymo"] for tr in sub["tracks"]}):
+            r, rem, mis = expected_rows(dict(sub, tracks=[tr for tr in sub["tracks"] if tr["kymo"] == kid]))
+            by_kymo += r
+            removed, missing = removed or rem, missing or mis
+        if case["obsmin"] and by_kymo:  # the legacy minimum is taken over the group that was handed in
+            m = min(r[0] for r in by_kymo)
+            by_kymo = [(r[0], m, r[2], r[3]) for r in by_kymo]
+        rows += by_kymo
+    if empty:
+        ok = ("IndexError", "RuntimeError") if missing else ("IndexError",)
+        return None if a in ok else f"extraction-empty-track: a track without points gave {a[:80]}"
+    if missing:
+        return None if a == "RuntimeError" else f"extraction-missing-minimum: a kept track has no minimum observable duration but {a[:80]}"
+    if a.endswith("Error"):
+        return f"extraction: raised {a} for groups that lie on one kymograph each"
+    R, flag = parse_rows(a)
+    if len(R) != len(rows):
+        return f"extraction-tracks-kept: {len(R)} dwell times handed over, {len(rows)} tracks of the groups qualify"
+    names = ["dwell time", "minimum observation time", "maximum observation time", "discretisation step"]
+    G = [[dec_float(x) for x in r] for r in R]
+    E = [[float(x) for x in e] for e in rows]
+    if mixed_groups(case):
+        if not match_rows(G, E, lambda g, e: all(close(g[j], e[j], 1e-9, 1e-15) for j in range(4))):
+            return (f"extraction-mixed-group: a group over {len({t['kymo'] for t in case['tracks']})} kymographs was "
+                    f"neither refused nor given each track's own kymograph: handed over {sorted(map(tuple, G))}, the "
+                    f"tracks give {sorted(map(tuple, E))}")
+    else:
+        for i, (g, e) in enumerate(zip(G, E)):
+            for j in range(4):
+                if not close(g[j], e[j], 1e-9, 1e-15):
+                    return f"extraction-{names[j].replace(' ', '-')}: row {i}: {names[j]} {g[j]!r}, expected {e[j]!r} (explicit groups)"
+    if (flag == "T") != removed:
+        return f"extraction-zero-dwells-flag: removed_zeros={flag}, expected {removed}"
+    return None
+
+
 def oracle_extract(case, ia, ordered=True):
     if "steps" in case:
         return oracle_extract_seq(case, ia)
+    if "groups" in case:
+        return oracle_extract_groups(case, ia)
     a = ia[0]
     if any(len(tr["idx"]) == 0 for tr in case["tracks"]):
         # which of the two complaints comes first depends on the processing order, not on the property
@@ -2224,6 +2339,8 @@ def tags(case, r):
         t["via"] = case["via"]
         t["excl"] = case["excl"]
         t["same_group_object_edited"] = "steps" in case
+        if "groups" in case:
+            t["explicit_groups"] = True
     return t
 
 
@@ -2267,11 +2384,19 @@ def shrink(case):
                     c["steps"] = [dict(x) for x in steps]
                     c["steps"][i]["tracks"] = st["tracks"][:j] + st["tracks"][j + 1:]
                     yield c
+    if k == "extract" and "groups" in case:
+        for j in range(len(case["groups"])):  # fewer groups (their tracks stay in the case, handed to nobody)
+            if len(case["groups"]) > 1:
+                c = dict(case)
+                c["groups"] = case["groups"][:j] + case["groups"][j + 1:]
+                yield c
     if k in ("extract", "fbt"):
         for i in range(len(case["tracks"])):
             if len(case["tracks"]) > 1:
                 c = dict(case)
                 c["tracks"] = case["tracks"][:i] + case["tracks"][i + 1:]
+                if "groups" in case:
+                    c["groups"] = [[x - (x > i) for x in g if x != i] for g in case["groups"]]
                 yield c
         for i, tr in enumerate(case["tracks"]):
             if len(tr["idx"]) > 2:
@@ -2634,6 +2759,66 @@ def gen_extract(rng, i, via=None):
     return case
 
 
+def set_partitions(items):
+    """every partition of a list into non-empty blocks (order of first elements)"""
+    if not items:
+        yield []
+        return
+    head, rest = items[0], items[1:]
+    for part in set_partitions(rest):
+        yield [[head]] + part
+        for j in range(len(part)):
+            yield part[:j] + [[head] + part[j]] + part[j + 1:]
+
+
+def gen_extract_groups(rng, i):
+    """the anchored extraction function handed explicit groups (see analyse_groups): the per-kymograph split with its
+    groups reordered and empty groups in between, a kymograph's tracks spread over several groups, two or more
+    kymographs thrown together in one group, or any partition of the tracks"""
+    case = gen_extract(rng.fork("tracks"), i, via="private")
+    tracks = case["tracks"]
+    kids = sorted({tr["kymo"] for tr in tracks})
+    by_kymo = [[j for j, tr in enumerate(tracks) if tr["kymo"] == k] for k in kids]
+    mode = rng.randint(0, 9)
+    if mode <= 1:
+        groups = by_kymo
+    elif mode <= 4:  # a kymograph's tracks spread over several groups
+        groups = []
+        for g in by_kymo:
+            cut = rng.randint(0, len(g))
+            groups += [g[:cut], g[cut:]] if rng.chance(0.7) else [g]
+    elif mode <= 7 and len(kids) >= 2:  # one group over two (or all) kymographs, the others as they are
+        a, b = rng.sample(range(len(kids)), 2)
+        if len(kids) > 2 and rng.chance(0.3):
+            groups = [sorted(sum(by_kymo, []))]
+        else:
+            groups = [sorted(by_kymo[a] + by_kymo[b])] + [g for j, g in enumerate(by_kymo) if j not in (a, b)]
+    else:  # any partition
+        groups = [[] for _ in range(rng.randint(1, 4))]
+        for j in range(len(tracks)):
+            groups[rng.randint(0, len(groups) - 1)].append(j)
+    for _ in range(rng.randint(0, 2)):  # order of the groups; empty groups
+        groups.insert(rng.randint(0, len(groups)), [])
+    if rng.chance(0.5):
+        groups = groups[::-1]
+    case.update(stream="random-extract-groups", groups=groups)
+    return case
+
+
+def small_scope_groups():
+    """four tracks over two kymographs (one in the first scan line, one of a single scan line): every partition into
+    groups, as it is and reversed with an empty group in front, all four flag combinations"""
+    kymos = [{"n_lines": 4, "line_time": 0.25}, {"n_lines": 3, "line_time": 0.5}]
+    tracks = [{"kymo": 0, "idx": [1, 2], "minobs": 0.25}, {"kymo": 0, "idx": [0, 1, 2], "minobs": 0.5},
+              {"kymo": 1, "idx": [1, 1], "minobs": 0.5}, {"kymo": 1, "idx": [0, 1], "minobs": 0.5}]
+    for part in set_partitions([0, 1, 2, 3]):
+        for groups in (part, [[]] + part[::-1]):
+            for excl in (False, True):
+                for obsmin in (False, True):
+                    yield {"stream": "small-scope", "op": "extract", "kymos": kymos, "tracks": tracks, "excl": excl,
+                           "obsmin": obsmin, "via": "private", "groups": groups}
+
+
 LANES = [0.5, 1.5, 2.5, 3.5]  # pixel rows of the 4-pixel kymographs built here (position units: pixels)
 
 
@@ -2810,6 +2995,38 @@ def gen_validate(rng, i):
     return case
 
 
+EDGE_K = [0.5, 0.9, 1.1, 2.0, 10.0]  # distance from a window edge in units of the relative tolerance 1e-6 (tie at 1.0)
+
+
+def validate_edge_case(tmin, tmax, side, k, per_obs, inside, stream):
+    """dwell times inside the window and one that lies k * 1e-6 (relative) outside one of its edges"""
+    edge = tmin * (1.0 - k * 1e-6) if side == "lo" else tmax * (1.0 + k * 1e-6)
+    t = list(inside) + [edge]
+    n = len(t)
+    return {"stream": stream, "op": "validate", "t": t, "tmin": [tmin] * n if per_obs else tmin,
+            "tmax": [tmax] * n if per_obs else tmax, "step": None}
+
+
+def small_scope_validate_edges():
+    """the relative tolerance of the window check, at both edges of windows over six decades (where a relative and an
+    absolute slack of 1e-6 are far apart), scalar and per-observation limits"""
+    for tmin, tmax in ((0.002, 0.05), (0.2, 5.0), (1.0, 400.0), (30.0, 1.0e4)):
+        inside = [tmin + 0.25 * (tmax - tmin), tmin + 0.5 * (tmax - tmin)]
+        for side in ("lo", "hi"):
+            for k in EDGE_K:
+                for per_obs in (False, True):
+                    yield validate_edge_case(tmin, tmax, side, k, per_obs, inside, "small-scope")
+
+
+def gen_validate_edge(rng, i):
+    tmin = rng.loguniform(1e-3, 50.0)
+    tmax = tmin * rng.loguniform(3.0, 1e3)
+    inside = [rng.uniform(tmin, tmax) for _ in range(rng.randint(1, 7))]
+    case = validate_edge_case(tmin, tmax, rng.choice(["lo", "hi"]), rng.choice(EDGE_K), rng.chance(0.5), inside, "malformed")
+    case["subseed"] = i
+    return case
+
+
 def corpus_cases():
     import glob
     import json
@@ -2955,6 +3172,16 @@ def cases(tier, rng):
     r = rng.fork("c15-assemble")
     for i in range(sizes["assemble"]):
         yield gen_assemble(r.fork(i), tier, i)
+    # ---- strengthening round H: the anchored extraction function handed explicit groups
+    yield from small_scope_groups()
+    r = rng.fork("c15-extract-groups")
+    for i in range(150 if quick else 2500):
+        yield gen_extract_groups(r.fork(i), i)
+    # ---- ... and the relative tolerance of the window check at both edges of windows over several decades
+    yield from small_scope_validate_edges()
+    r = rng.fork("c15-validate-edge")
+    for i in range(40 if quick else 600):
+        yield gen_validate_edge(r.fork(i), i)
 
 
 def extra_coverage(results):
@@ -2967,6 +3194,8 @@ def extra_coverage(results):
     slsqp = {}
     ext = {"kept-all": 0, "dropped-some": 0, "kept-none": 0, "error": 0, "via-fit": 0, "multi-kymo": 0, "first-or-last-line": 0}
     cons = {"one-free": 0, "several-free": 0, "all-fixed": 0, "error": 0}
+    grp = {"cases": 0, "with-an-empty-group": 0, "a-kymograph-in-several-groups": 0, "with-a-group-over-several-kymographs": 0,
+           "refused-ValueError": 0, "rows-handed-over": 0}
     seq = {"cases": 0, "analyses": 0, "via-fit": 0, "multi-kymo": 0, "edits-that-changed-the-group": 0,
            "analyses-after-an-in-place-change": 0, "rows-handed-over-after-a-change": 0, "refused-edits": 0,
            "fit-refused-rows-outside-their-own-limits": 0}
@@ -3078,6 +3307,16 @@ def extra_coverage(results):
                     if p is not None and not p.endswith("Error") and parse_rows(p)[0]:
                         seq["rows-handed-over-after-a-change"] += 1
             continue
+        if c["op"] == "extract" and "groups" in c:
+            a = r["impl"][0]
+            grp["cases"] += 1
+            grp["with-an-empty-group"] += any(not g for g in c["groups"])
+            grp["a-kymograph-in-several-groups"] += any(
+                sum(1 for g in c["groups"] if any(c["tracks"][i]["kymo"] == k for i in g)) > 1 for k in range(len(c["kymos"])))
+            grp["with-a-group-over-several-kymographs"] += bool(mixed_groups(c))
+            grp["refused-ValueError"] += a == "ValueError"
+            grp["rows-handed-over"] += (not a.endswith("Error")) and a != "?" and bool(parse_rows(a)[0])
+            continue
         if c["op"] == "extract":
             a = r["impl"][0]
             if a.endswith("Error"):
@@ -3099,7 +3338,7 @@ def extra_coverage(results):
                 cons["several-free" if nfree >= 2 else ("all-fixed" if c["mask"] is not None and all(c["mask"][: c["n"]]) else "one-free")] += 1
     return {"case_kinds": kinds, "error_kinds": errs, "components": ncomp, "observations_per_case": nobs, "limits": limits,
             "windows": windows, "model_kind": model_kind, "slsqp_exit_of_fits": slsqp, "discrete_inf_sums_not_covering_support_skipped": uncovered,
-            "extraction": ext, "extraction_same_group_object_edited": dict(seq, edits=seq_edits), "amplitude_constraint": cons, "pdf_of_pooled_windows": pooled,
+            "extraction": ext, "extraction_function_handed_explicit_groups": grp, "extraction_same_group_object_edited": dict(seq, edits=seq_edits), "amplitude_constraint": cons, "pdf_of_pooled_windows": pooled,
             "gradient_handed_to_the_optimiser": handed, "lik_cases_with_an_amplitude_below_1e-4": rare_lik,
             "likelihood_with_window_probability_below_the_range_of_doubles": deep,
             "optimiser_assembly_with_fixed_parameters": asm, "one_component_closed_form": mle1, "fit_binding_times_options": fbt, "exhaustive": False,
